@@ -2,7 +2,7 @@
     closed by check_max_bad_commands() only after more than MAXBADCMDS+1 bad commands in a
     row, every bad command before that is answered and the session continues, and every good
     command restarts the count. *)
-From Qv Require Import Common.Bytes Gen.GenNetio Gen.GenSession Model.NetRead Model.Session Spec.SessionSpec.
+From Qv Require Import Common.Bytes Gen.GenNetio Gen.GenSession Model.NetRead Model.Session Spec.SessionSpec Proofs.RelayDecide.
 From Coq Require Import Lia.
 
 Section Bad.
@@ -58,51 +58,60 @@ Definition nobad (evs : list event) : Prop := forall c, bad_run evs c = Some c.
 
 Ltac nb := let c := fresh in intros c; reflexivity.
 
-Lemma relay_decide_bad s cls al s1 pre : relay_decide o s cls = (al, s1, pre) ->
-  badcmds s1 = badcmds s /\ (pre = [] \/ pre = [Reply 421]).
+Lemma nobad_app a b : nobad a -> nobad b -> nobad (a ++ b).
+Proof. intros Ha Hb c. rewrite bad_run_app, Ha. apply Hb. Qed.
+Lemma nobad_nil : nobad []. Proof. intros c. reflexivity. Qed.
+
+Lemma pre_ok_nobad pre : pre_ok pre -> nobad pre.
 Proof.
-  unfold relay_decide. destruct cls.
-  - intros H; inversion H; subst. auto.
-  - destruct (authed s); [intros H; inversion H; subst; auto|].
-    destruct (N.eqb (relayclient s) 0); [destruct (Z.ltb (o_relay o) 0)|]; intros H; inversion H; subst; auto.
+  unfold pre_ok. induction pre as [|e r IH]; [intros _; apply nobad_nil|]. cbn [forallb]. intros H.
+  apply andb_true_iff in H as [He Hr]. intros c. cbn [bad_run].
+  destruct e as [x|x y| | |n]; try discriminate; try (cbn [bad_step]; apply (IH Hr)).
+  destruct n; try discriminate. cbn [bad_step]. apply (IH Hr).
 Qed.
 
-Lemma h_rcpt_bad s arg evs h s' : h_rcpt o s arg = (evs, h, s') -> nobad evs /\ badcmds s' = badcmds s /\ h <> HEXIT.
+Lemma relay_decide_bad s cls res s1 pre : relay_decide o s cls = (res, s1, pre) ->
+  badcmds s1 = badcmds s /\ nobad pre.
+Proof.
+  intros H. destruct (relay_decide_core _ _ _ _ _ _ H) as (Hc & Hp). split; [apply Hc|exact (pre_ok_nobad _ Hp)].
+Qed.
+
+Ltac nbp Hp := first [ exact Hp | apply nobad_app; [exact Hp|let c := fresh in intros c; reflexivity] | (let c := fresh in intros c; reflexivity) ].
+
+Lemma h_rcpt_bad s arg evs h s' : h_rcpt o s arg = (evs, h, s') -> nobad evs /\ badcmds s' = badcmds s.
 Proof.
   unfold h_rcpt. intros H.
   destruct (o_addr o true arg) as [| | |addr more cls];
-    try (destruct (Nat.leb MAXRCPT (rcptcount s))); try (inversion H; subst; (split; [nb|]); (split; [|discriminate]); rewrite ?bc_tarpit; reflexivity).
-  destruct (relay_decide o s cls) as [[al s1] pre] eqn:Er.
+    try (destruct (Nat.leb MAXRCPT (rcptcount s))); try (inversion H; subst; (split; [nb|]); rewrite ?bc_tarpit; reflexivity).
+  destruct (relay_decide o s cls) as [[res s1] pre] eqn:Er.
   destruct (relay_decide_bad _ _ _ _ _ Er) as (Hb & Hpre).
-  destruct pre as [|p pre'].
-  2:{ inversion H; subst. destruct Hpre as [E|E]; [discriminate|]. inversion E; subst. split; [nb|]. split; [exact Hb|discriminate]. }
+  destruct res as [al|h0]; [|inversion H; subst; split; [exact Hpre|exact Hb]].
   repeat (match type of H with
           | context [match ?x with _ => _ end] => destruct x eqn:?
           | context [if ?x then _ else _] => destruct x eqn:?
           end; try discriminate);
-    inversion H; subst; (split; [nb|]); (split; [|discriminate]); rewrite ?bc_tarpit; cbn [badcmds]; exact Hb.
+    inversion H; subst; (split; [nbp Hpre|]); rewrite ?bc_tarpit; cbn [badcmds]; exact Hb.
 Qed.
 
-Lemma subm_gate_bad s al s1 pre : subm_gate o s = (al, s1, pre) ->
-  badcmds s1 = badcmds s /\ (pre = [] \/ pre = [Reply 421]).
+Lemma subm_gate_bad s res s1 pre : subm_gate o s = (res, s1, pre) ->
+  badcmds s1 = badcmds s /\ nobad pre.
 Proof.
-  unfold subm_gate. destruct (o_submission o); [apply relay_decide_bad|]. intros H; inversion H; subst. auto.
+  unfold subm_gate. destruct (o_submission o); [apply relay_decide_bad|]. intros H; inversion H; subst. split; [reflexivity|apply nobad_nil].
 Qed.
 
-Lemma h_from_bad s arg len evs h s' : h_from o s arg len = (evs, h, s') -> nobad evs /\ badcmds s' = badcmds s /\ h <> HEXIT.
+Lemma h_from_bad s arg len evs h s' : h_from o s arg len = (evs, h, s') -> nobad evs /\ badcmds s' = badcmds s.
 Proof.
   unfold h_from. intros H.
-  destruct (o_addr o false arg) as [| | |addr more cls]; [inversion H; subst; split; [nb|split; [reflexivity|discriminate]]| | |];
+  destruct (o_addr o false arg) as [| | |addr more cls]; [inversion H; subst; split; [nb|reflexivity]| | |];
     (match type of H with context [subm_gate o ?sc] =>
-       destruct (subm_gate o sc) as [[al s1] pre] eqn:Eg; destruct (subm_gate_bad _ _ _ _ Eg) as (Hb & Hpre) end);
+       destruct (subm_gate o sc) as [[res s1] pre] eqn:Eg; destruct (subm_gate_bad _ _ _ _ Eg) as (Hb & Hpre) end);
     cbn [badcmds] in Hb;
-    (destruct pre as [|p pre'];
-     [|inversion H; subst; destruct Hpre as [E|E]; [discriminate|]; inversion E; subst; split; [nb|split; [exact Hb|discriminate]]]);
+    (destruct res as [al|h0]; [|inversion H; subst; split; [exact Hpre|exact Hb]]);
     repeat (match type of H with
             | context [match ?x with _ => _ end] => destruct x eqn:?
             | context [if ?x then _ else _] => destruct x eqn:?
             end; try discriminate);
-    inversion H; subst; (split; [nb|]); (split; [|discriminate]); rewrite ?bc_tarpit; cbn [badcmds]; exact Hb.
+    inversion H; subst; (split; [nbp Hpre|]); rewrite ?bc_tarpit; cbn [badcmds]; exact Hb.
 Qed.
 
 Lemma h_data_bad f s evs h s' : h_data f o s = (evs, h, s') ->
@@ -165,16 +174,16 @@ Proof.
   - destruct (o_helo o (skipn 5 l)); inversion H; subst; (split; [nb|reflexivity]).
   - destruct (o_helo o (skipn 5 l)); inversion H; subst; (split; [nb|reflexivity]).
   - destruct (h_from o s (skipn (length name) l) (length l)) as [[e h'] s'] eqn:Eh.
-    destruct (h_from_bad _ _ _ _ _ _ Eh) as (Hn & Hb & Hx).
-    destruct h'; inversion H; subst; try congruence; (split; [exact Hn|]); try exact Hb; reflexivity.
+    destruct (h_from_bad _ _ _ _ _ _ Eh) as (Hn & Hb).
+    destruct h'; inversion H; subst; try (rewrite Hn; discriminate); (split; [exact Hn|]); try exact Hb; reflexivity.
   - destruct (h_rcpt o s (skipn (length name) l)) as [[e h'] s'] eqn:Eh.
-    destruct (h_rcpt_bad _ _ _ _ _ Eh) as (Hn & Hb & Hx).
-    destruct h'; inversion H; subst; try congruence; (split; [exact Hn|]); try exact Hb; reflexivity.
+    destruct (h_rcpt_bad _ _ _ _ _ Eh) as (Hn & Hb).
+    destruct h'; inversion H; subst; try (rewrite Hn; discriminate); (split; [exact Hn|]); try exact Hb; reflexivity.
   - destruct (h_data f o s) as [[e h'] s'] eqn:Eh.
     destruct (h_data_bad _ _ _ _ _ Eh) as (Hne & Hex).
     destruct h'; inversion H; subst; try (apply Hex; reflexivity);
       (destruct Hne as (Hn & Hb); [discriminate|]); (split; [exact Hn|]); try exact Hb; reflexivity.
-  - inversion H; subst. split; [nb|reflexivity].
+  - destruct (negb (esmtp s)); inversion H; subst; (split; [nb|reflexivity]).
   - (* smtp_auth *)
     destruct (authed s || negb (o_authperm o)); [inversion H; subst; split; [nb|reflexivity]|].
     destruct (o_auth o (skipn 5 l)); inversion H; subst; [split; [nb|reflexivity]|split; [nb|reflexivity]|simpl; discriminate].
